@@ -27,6 +27,7 @@ type memFS struct {
 	files map[string]*memFile
 	open  map[*value]*openFile
 	tmp   int
+	notExist value
 }
 
 var mfs *memFS
@@ -72,7 +73,11 @@ func errNotExist(fr *frame) value {
 			}
 		}
 	}
-	return newEngineError("file does not exist", nil)
+	// one stable value per path, so that os.IsNotExist / errors.Is recognise it
+	if mfs.notExist == nil {
+		mfs.notExist = newEngineError("file does not exist", nil)
+	}
+	return mfs.notExist
 }
 
 func newFileValue(mf *memFile, appendMode bool) value {
